@@ -203,7 +203,7 @@ def rerun_c02(inp):
 
 
 # ---------------------------------------------------------------------------------------------- random project trees
-NAMES = ["a", "ab", "b", "a_b", "core", "core_utils", "x", "xy"]
+NAMES = ["a", "ab", "b", "a_b", "core", "core_utils", "x", "xy", "pyx"]   # ("pyx": a name that begins like the file suffix)
 
 
 def random_tree(rng, depth=3, with_init=0.7):
@@ -249,8 +249,30 @@ def modname(rel, root=ROOT):
     return root + ("." + rel.replace("/", ".") if rel else "")
 
 
-def add_imports(files, rng, n, externals=()):
-    """Add import statements (absolute, fully qualified from the root directory name) between random .py files."""
+def spelled(importer_rel, target, rng, k):
+    """One of the import statements that name the internal module `target` from the file importer_rel: plain, aliased, from-import, aliased from-import,
+    relative (when the target lies in the importer's package tree)."""
+    P, n = target.rsplit(".", 1)
+    forms = [f"import {target}", f"import {target} as al{k}", f"from {P} import {n}", f"from {P} import {n} as al{k}", f"from {P} import {n} as {n}x, {n}"]
+    pkg = modname(importer_rel.rsplit("/", 1)[0] + "/") if "/" in importer_rel else ROOT
+    parts = pkg.split(".")
+    for up in range(0, len(parts)):
+        base = ".".join(parts[:len(parts) - up])
+        if target.startswith(base + "."):
+            rest = target[len(base) + 1:]
+            dots = "." * (up + 1)
+            if "." in rest:
+                forms.append(f"from {dots}{rest.rsplit('.', 1)[0]} import {rest.rsplit('.', 1)[1]}")
+                forms.append(f"from {dots}{rest.rsplit('.', 1)[0]} import {rest.rsplit('.', 1)[1]} as al{k}")
+            else:
+                forms.append(f"from {dots} import {rest}")
+                forms.append(f"from {dots} import {rest} as al{k}")
+            break
+    return rng.choice(forms)
+
+
+def add_imports(files, rng, n, externals=(), forms=False):
+    """Add import statements (absolute, fully qualified from the root directory name; with forms=True in any equivalent spelling) between random .py files."""
     drop_shadowed(files)
     pyfiles = sorted(f for f in files if f.endswith(".py") and re.match(r"^[A-Za-z_0-9/]+\.py$", f))
     edges = set()
@@ -266,7 +288,7 @@ def add_imports(files, rng, n, externals=()):
         b = rng.choice(pyfiles)
         if a == b:
             continue
-        files[a] += f"import {modname(b)}\n"
+        files[a] += (spelled(a, modname(b), rng, len(edges)) if forms else f"import {modname(b)}") + "\n"
         edges.add((modname(a), modname(b)))
     return edges
 
@@ -510,6 +532,10 @@ def _c08_case(seed):
     files[f"{special}x.py"] = ""       # sibling whose path starts with the same text
     files[f"pre{special}/__init__.py"] = ""
     files[f"pre{special}/m.py"] = ""
+    # the same names in another letter case: patterns are case-sensitive
+    files[f"{special.upper()}/__init__.py"] = ""
+    files[f"{special.upper()}/Inner.py"] = ""
+    files[f"{special.capitalize()}x.py"] = ""
     add_imports(files, rng, rng.randint(4, 10))
     out = []
     with temp_project(files, ROOT) as root:
@@ -731,10 +757,12 @@ def _c10_case(seed):
             int_imps = {(a, c) for a, c in ref[1] if internal(a) and internal(c)}
             configs = [dict(exclude_external_libraries=False)]
             for pat in rng.sample(["os*", "vendorlib.core", "vendorlib.core*", "*handlers", "*handlers*", "vendorlib", "proj*", "*core*", "a", "*.util", "ab*"], 4):
-                configs.append(dict(exclude_external_libraries=False, external_exclusions=(pat,)))
+                # (an EMPTY tuple for the other spelling is no pattern at all and must not disturb the one that is given)
+                configs.append(dict(exclude_external_libraries=False, external_exclusions=(pat,), **(dict(regex_external_exclusions=()) if rng.random() < 0.4 else {})))
                 s, e = pat.startswith("*"), pat.endswith("*")
                 mid = pat[(1 if s else 0):(len(pat) - 1 if e else len(pat))]
-                configs.append(dict(exclude_external_libraries=False, regex_external_exclusions=((".*" if s else "") + re.escape(mid) + (".*" if e else "$"),)))
+                configs.append(dict(exclude_external_libraries=False, regex_external_exclusions=((".*" if s else "") + re.escape(mid) + (".*" if e else "$"),),
+                                    **(dict(external_exclusions=()) if rng.random() < 0.4 else {})))
             for kw in configs + [dict()]:
                 got = arch_snapshot(scan(root, mp, **kw))
                 if not kw:
